@@ -160,6 +160,8 @@ def run(ctx):
         elif f[0] == "EVALS":
             ctx.cov["evaluations"] += int(f[1])
             ctx.notes["search_evaluations"] = int(f[1])
+        elif f[0] == "XREF_FIELDS":
+            ctx.notes["xref_fields_mutated_on_real_files"] = f[1] if len(f) > 1 else ""
         elif f[0] == "INFO_REACHED":
             ctx.notes["info_levels_0_2_reached"] = {"registered_types_decoded_and_printed_at_levels_0_1_2": int(f[1]), "registered_types": int(f[2]),
                                                     "not_reached": f[3] if len(f) > 3 else ""}
